@@ -100,6 +100,8 @@ def probes_on(model, r, names, stats, report):
                 if direction == "pull" and got > y + DUST:
                     sig = (direction, kind, src, dst) + (("leak-bounced",) if leak_bounced(arc.in_port, lk0, y, got, min(y, X)) else ("over-asked",))
                     report(f"a pull of {y} over {kind} {src}->{dst} returned {got}: more than was asked", sig, "C18")
+                    # ("a pull returns at most what was asked" is a clause of C04 as well)
+                    report(f"a pull of {y} over {kind} {src}->{dst} returned {got}: more than was asked", sig, "C04")
 
 
 def leak_books(node):
